@@ -40,6 +40,25 @@ structure RelF (N : Obs → Prop) (S : Store → Store → Prop) (s s' : Sess) :
   st : s'.st = s.st
   inbox : s'.inbox = s.inbox
 
+/-- the policy that allows everything (used for pure frame facts: cfg / st / inbox / log extension) -/
+instance trivPolicy : Policy (fun _ => True) (fun _ _ => True) where
+  sRefl := fun _ => trivial
+  sTrans := fun _ _ => trivial
+  nWire := fun _ => trivial
+  nSaved := fun _ _ _ => trivial
+  nIncS := trivial
+  nIncT := trivial
+  nSetT := fun _ => trivial
+  nArm := fun _ => trivial
+  nClosed := trivial
+  nOnLogout := trivial
+  nRefresh := trivial
+  sPersist := fun _ _ _ => trivial
+  sIncS := fun _ => trivial
+  sTarget := fun _ _ _ => trivial
+
+theorem triv_resetOK : ResetOK (fun _ => True) (fun _ _ => True) := ⟨trivial, fun _ => trivial⟩
+
 section
 variable {N : Obs → Prop} {S : Store → Store → Prop} [hp : Policy N S]
 
